@@ -22,6 +22,8 @@ The wrapped driver replays every ordinary op word unchanged.  The wrapper adds
 * `scoped_panic <owner> <how> <n>`   harness only: objects owned by a closure that panics under
                      `catch_unwind` (dropped by the unwinder); nothing of the modelled world changes,
                      the observation is `P caught`;
+* `must <op …>`     the op itself; the harness reports a panic of it as a violation (cases that use it make
+                     sure the op is valid: a pending placeholder of the iovec, a source of its size);
 * a word containing `+` is a concatenation of payload tokens (hex, `-`, `~TTxN`, each optionally
   `*<k>` = repeated k times) and is expanded to plain hex before the wrapped driver sees it.
 
@@ -167,7 +169,12 @@ def isScoped (ws : List String) : Option Bool :=
   | _ => none
 
 /-- one op of the wrapped vocabulary (after macro expansion), or `scoped_panic` -/
-def step1 (f : Family) (st : f.σ) (ws : List String) : f.σ × List String :=
+def step1 (f : Family) (st : f.σ) (ws0 : List String) : f.σ × List String :=
+  -- `must <op …>`: the harness reports a panic of this op as a violation (the op is valid by
+  -- construction of the case); for the model it is the op itself
+  let ws := match ws0 with
+    | "must" :: rest => rest
+    | _ => ws0
   match isScoped ws with
   | some true => (st, ["P caught"])
   | some false => (st, ["bad-op"])
